@@ -187,11 +187,7 @@ func main() {
 	case "probe":
 		os.Exit(cmdProbe(*file))
 	case "gen":
-		e := engines[propEngine[*prop]]
-		if *prop == "C11" && *seed%8 == 7 {
-			e = engines["simple"]
-		}
-		emit(e.Gen(*prop, *seed, *tier))
+		emit(engineForSeed(*prop, *seed).Gen(*prop, *seed, *tier))
 		os.Exit(0)
 	}
 	fmt.Fprintln(os.Stderr, "unknown command", cmd)
@@ -207,8 +203,24 @@ func engineFor(prop string) Engine {
 	return engines[n]
 }
 
+// engineForSeed: some properties are examined by a second engine on a fixed
+// share of the seeds.
+func engineForSeed(prop string, s uint64) Engine {
+	switch {
+	case prop == "C11" && s%8 == 7:
+		// C11 also covers the simple server: every 8th run drives it with the
+		// boundary-dense / malformed-handle request generator of C17
+		return engines["simple"]
+	case prop == "C01" && s%4 == 3:
+		// C01 under concurrency: several clients, crash points inside the group
+		// commits, linearizability of acknowledged + in-flight + post-crash history
+		return engines["conc"]
+	}
+	return engineFor(prop)
+}
+
 func cmdRun(prop, tier string, seed, stride uint64, count int, budget float64, progress string, known string) int {
-	e := engineFor(prop)
+	engineFor(prop)
 	var knownRe *regexp.Regexp
 	if known != "" {
 		knownRe = regexp.MustCompile(known)
@@ -231,12 +243,7 @@ func cmdRun(prop, tier string, seed, stride uint64, count int, budget float64, p
 		if pj != nil {
 			fmt.Fprintf(pj, "%d\n", s)
 		}
-		e := e
-		if prop == "C11" && s%8 == 7 {
-			// C11 also covers the simple server: every 8th run drives it with the
-			// boundary-dense / malformed-handle request generator of C17
-			e = engines["simple"]
-		}
+		e := engineForSeed(prop, s)
 		spec := e.Gen(prop, s, tier)
 		if spec == nil {
 			break // enumerated space exhausted
@@ -245,6 +252,9 @@ func cmdRun(prop, tier string, seed, stride uint64, count int, budget float64, p
 		sum.Runs++
 		if spec.Engine == "simple" && prop == "C11" {
 			sum.Counters["simple_server_runs"]++
+		}
+		if spec.Engine == "conc" && prop == "C01" {
+			sum.Counters["concurrent_crash_runs"]++
 		}
 		if t, ok := spec.Knobs["total"]; ok {
 			sum.Counters["space_size"] += t // divided by the number of runs in the driver
@@ -379,9 +389,9 @@ func cmdReplay(file string) int {
 }
 
 func cmdSelftest(prop, tier string, seed uint64, count int) int {
-	e := engineFor(prop)
 	for i := 0; i < count; i++ {
 		s := seed + uint64(i)
+		e := engineForSeed(prop, s)
 		spec := e.Gen(prop, s, tier)
 		if spec == nil {
 			// enumerated space (C15): fold the seed into the list
